@@ -56,12 +56,14 @@ CHECKS = {
                 "transcripts compared pairwise; 'limit' plans first fill the document up to the slot-id limit of the build",
         "budget_s": {"quick": 80, "thorough": 1500},
         "batches": [
-            {"family": "hist", "mode": "free", "cfgs": {"quick": ["A", "B", "D", "F", "G"], "thorough": ALL_CFGS},
+            {"family": "hist", "mode": "free", "cfgs": {"quick": ["A", "B", "D", "F", "G", "I"], "thorough": ALL_CFGS + ["I"]},
              "runs": {"quick": 4000, "thorough": 60000}, "cross_config": True},
             {"family": "hist", "mode": "limit", "cfgs": {"quick": ["B", "C", "F"], "thorough": ["B", "C", "F"]},
              "runs": {"quick": 1500, "thorough": 40000}},
-            {"family": "hist", "mode": "limit", "cfgs": {"quick": ["D", "E", "G"], "thorough": ["D", "E", "G"]},
+            {"family": "hist", "mode": "limit", "cfgs": {"quick": ["D", "E", "G", "I"], "thorough": ["D", "E", "G", "I"]},
              "runs": {"quick": 48, "thorough": 1500}},
+            {"family": "hist", "mode": "limit", "cfgs": {"quick": ["A"], "thorough": ["A", "H"]},
+             "runs": {"quick": 64, "thorough": 1500}},
         ],
         "probes": ["limit.slots_exhausted", "fill.hit_limit"],
         "components": COMPONENTS,
@@ -125,6 +127,8 @@ CHECKS.update({
         "batches": [
             {"family": "sink", "mode": "json", "cfgs": {"quick": ["A", "B", "H"], "thorough": ALL_CFGS},
              "runs": {"quick": 18000, "thorough": 240000}},
+            {"family": "sink", "mode": "jsonbig", "cfgs": {"quick": ["A"], "thorough": ["A", "D", "E"]},
+             "runs": {"quick": 16, "thorough": 160}},
         ],
         "probes": ["fault.capacity_positions", "fault.short_write_positions", "sink.array_forms"],
         "components": SINK_COMPONENTS,
@@ -142,6 +146,8 @@ CHECKS.update({
         "batches": [
             {"family": "sink", "mode": "mp", "cfgs": {"quick": ["A", "D", "H"], "thorough": ALL_CFGS},
              "runs": {"quick": 18000, "thorough": 240000}},
+            {"family": "sink", "mode": "mpbig", "cfgs": {"quick": ["A", "E"], "thorough": ["A", "D", "E"]},
+             "runs": {"quick": 16, "thorough": 160}},
         ],
         "probes": ["fault.capacity_positions", "fault.short_write_positions"],
         "components": SINK_COMPONENTS,
